@@ -192,9 +192,32 @@ pub fn c14_run(args: &Args) -> i32 {
         eprintln!("MACHINERY: {e}");
         return 2;
     }
+    // SAMPLED (not exhaustive): both threads printing at the same time. The search thread reports
+    // ~100 iterations in a fraction of a second while the command loop answers a flood of isready;
+    // every stdout line must still be one well-formed line of one thread. The OS scheduling of the
+    // two threads cannot be enumerated without a hook inside the print path, so this only samples it.
+    let rounds = if thorough { 40 } else { 8 };
+    let mut flood_lines = 0u64;
+    for round in 0..rounds {
+        match flood_round() {
+            Err(e) => {
+                eprintln!("MACHINERY: {e}");
+                return 2;
+            }
+            Ok((n, bad)) => {
+                flood_lines += n;
+                if let Some(b) = bad {
+                    sink.report("flood|torn-line".into(), format!("real executable, isready flood during 'go depth 100' (round {round}): {b}"), obj(vec![("kind", s("flood"))]));
+                    break;
+                }
+            }
+        }
+    }
     let logs = merged.get("logs_checked") + checked.load(Ordering::Relaxed);
     let mut extra: Vec<(String, J)> = merged.counters.iter().map(|(k, v)| (format!("inproc_{}", k.replace(':', "_")), i(*v))).collect();
     extra.push(("process_go_depth_commands".into(), i(checked.load(Ordering::Relaxed))));
+    extra.push(("sampled_output_interleaving_rounds".into(), i(rounds as u64)));
+    extra.push(("sampled_output_interleaving_lines_checked".into(), i(flood_lines)));
     let cov = Coverage {
         states: logs,
         transitions: merged.get("info_lines_checked").max(1),
@@ -208,6 +231,57 @@ pub fn c14_run(args: &Args) -> i32 {
         ],
     };
     report::finish(&sink, cov)
+}
+
+/// One round of the isready flood; returns (stdout lines checked, first malformed line).
+fn flood_round() -> Result<(u64, Option<String>), String> {
+    use super::uciproc::Engine;
+    use std::time::Duration;
+    let mut e = Engine::start(None, &[])?;
+    let root = Pos::from_fen("7k/8/5K2/6Q1/8/8/8/8 w - - 0 1").map_err(|x| x.to_string())?;
+    e.send("position fen 7k/8/5K2/6Q1/8/8/8/8 w - - 0 1");
+    e.send("go depth 100");
+    let mut sent = 0usize;
+    let began = std::time::Instant::now();
+    while e.count_lines("bestmove") == 0 && began.elapsed() < Duration::from_secs(20) {
+        for _ in 0..20 {
+            e.send("isready");
+            sent += 1;
+        }
+        e.settle(Duration::from_micros(300));
+    }
+    // all answers owed
+    let t = std::time::Instant::now();
+    while e.count_lines("readyok") < sent && t.elapsed() < Duration::from_secs(5) {
+        e.settle(Duration::from_millis(2));
+    }
+    let lines = e.lines();
+    e.send("quit");
+    let _ = e.wait_exit(Duration::from_secs(5));
+    let mut bad = None;
+    let mut ready = 0usize;
+    for l in &lines {
+        let ok = if l == "readyok" {
+            ready += 1;
+            true
+        } else if l.starts_with("info") {
+            infogrammar::check_log(&[l.clone()], &root, None).iter().all(|c| c.contains("out of order"))
+        } else if let Some(m) = l.strip_prefix("bestmove ") {
+            super::searchrun::legal_uci(&root).iter().any(|x| x == m.trim())
+        } else {
+            false
+        };
+        if !ok && bad.is_none() {
+            bad = Some(format!("malformed stdout line '{l}'"));
+        }
+    }
+    if bad.is_none() && ready != sent {
+        bad = Some(format!("{sent} isready sent but {ready} readyok lines"));
+    }
+    if bad.is_none() && e.count_lines("bestmove") != 1 {
+        bad = Some(format!("{} bestmove lines", e.count_lines("bestmove")));
+    }
+    Ok((lines.len() as u64, bad))
 }
 
 pub fn replay_session(prop: &str, r: &J) -> i32 {
